@@ -351,6 +351,9 @@ def config_cases(tier):
     for nm in ("eff", "eff-leak", "doppler", "amp", "all-rates"):
         for obs in (("bit",), ("occ", "corr")):
             out.append(("config", obs, (0.0, 0.5, 1.0), None, nm))
+    for grid in RESULT_GRIDS:
+        for kind in ("plain", "with-matrix", "one-atom"):
+            out.append(("results", grid, kind))
     for flag in ("with_modulation", "prefer_device_noise_model"):
         for kind in ("np-true", "np-false", "np-comparison", "int-1", "int-0", "true", "false"):
             out.append(("config-flags", flag, kind))
@@ -426,6 +429,60 @@ def check_config(obs, times, init, nm):
     if back.noise_model != cfg.noise_model:
         out.append(("C17:config-noise-model-differs", ""))
     return out + [("@config", "")]
+
+
+RESULT_GRIDS = {
+    "decimal": [0.1, 0.5, 1.0],
+    "thirds": [1 / 3, 2 / 3, 1.0],
+    "sevenths": [k / 7 for k in range(8)],
+    "full-101": [k / 101 for k in range(102)],
+    "tiny-steps": [0.3, 0.3 + 1e-15, 0.30000000000000004 + 2e-16, 1.0 - 1e-16, 1.0],
+}
+
+
+def check_results(grid, kind):
+    """A Results object comes back from its JSON with every field equal: atom order, duration, tags, the stored TIMES bit for bit (they are
+    the keys of get_result) and the values."""
+    from collections import Counter
+
+    from pulser.backend import BitStrings, CorrelationMatrix, Energy, Occupation
+    from pulser.backend.results import Results
+
+    times = sorted(set(RESULT_GRIDS[grid]))
+    res = Results(atom_order=("q1", "q0", "q2") if kind != "one-atom" else ("a",), total_duration=1000 if grid != "full-101" else 101)
+    obs = [BitStrings(evaluation_times=times, num_shots=10, tag_suffix="b"), Occupation(evaluation_times=times), Energy(evaluation_times=times),
+           CorrelationMatrix(evaluation_times=times)]
+    n = len(res.atom_order)
+    for i, t in enumerate(times):
+        res._store(observable=obs[0], time=t, value=Counter({"0" * n: 10 - (i % 3), "1" * n: i % 3}))
+        res._store(observable=obs[1], time=t, value=[0.125 * (i % 5)] * n)
+        res._store(observable=obs[2], time=t, value=-1.5 + i / 3)
+        if kind == "with-matrix":
+            res._store(observable=obs[3], time=t, value=[[0.25 * (i % 3)] * n for _ in range(n)])
+    out = []
+    try:
+        doc = res.to_abstract_repr()
+        back = Results.from_abstract_repr(doc)
+    except Exception as e:
+        return gridx.crash_finding(e, "round-tripping-results", f"{grid} {kind}") or [(f"C17:results-roundtrip-raises:{type(e).__name__}", f"{grid} {kind}: {e}"[:200])]
+    if back.atom_order != res.atom_order or back.total_duration != res.total_duration or sorted(back.get_result_tags()) != sorted(res.get_result_tags()):
+        out.append(("C17:results-roundtrip-differs:header", f"{grid} {kind}"))
+    for o in obs[: 4 if kind == "with-matrix" else 3]:
+        t1, t2 = res.get_result_times(o), back.get_result_times(o.tag)
+        if [float(x) for x in t1] != [float(x) for x in t2]:
+            k = next((i for i, (a, b) in enumerate(zip(t1, t2)) if float(a) != float(b)), None)
+            out.append((f"C17:results-roundtrip-differs:times:{grid}", f"{o.tag}: stored {t1[k] if k is not None else len(t1)!r}, read back {t2[k] if k is not None else len(t2)!r}"))
+            continue
+        for t in t1:
+            try:
+                v1, v2 = res.get_result(o, t), back.get_result(o.tag, t)
+            except Exception as e:
+                out.append((f"C17:results-roundtrip-value-not-retrievable:{grid}", f"{o.tag} at {t!r}: {e}"[:160]))
+                break
+            if deep(v1 if not isinstance(v1, Counter) else dict(v1)) != deep(v2 if not isinstance(v2, Counter) else dict(v2)):
+                out.append((f"C17:results-roundtrip-differs:values:{o._base_tag}", f"{grid} at {t!r}: {v1!r} vs {v2!r}"[:200]))
+                break
+    return out + [("@results", "")]
 
 
 def check_config_flags(flag, kind):
@@ -548,6 +605,8 @@ def worker(case):
             return check_config(*case[1:])
         if k == "config-flags":
             return check_config_flags(case[1], case[2])
+        if k == "results":
+            return check_results(case[1], case[2])
         return check_alias(k, case[1])
 
 
